@@ -248,7 +248,7 @@ deriving Repr, DecidableEq
 inductive Tok
   | lit (c : Nat)
   | any
-  | star
+  | star (dot : Bool)        -- `dot`: the `*` is directly followed by an unescaped `.`
   | cls (neg : Bool) (items : List CItem)
   | never
 deriving Repr, DecidableEq
@@ -293,7 +293,7 @@ def tokenize (fl : FnFlags) : (fuel : Nat) → List Nat → List Tok
   | 0, _ => [.never]
   | _ + 1, [] => []
   | f + 1, pc :: p1 =>
-    if pc = cStar then .star :: tokenize fl f p1
+    if pc = cStar then .star (p1.head? == some cDot) :: tokenize fl f p1
     else if pc = cQuest then .any :: tokenize fl f p1
     else if pc = cLB then
       let neg := p1.head? == some cBang || p1.head? == some cCaret
@@ -335,7 +335,7 @@ def refMatch (fl : FnFlags) : List Tok → List Nat → Bool
   | .any :: ts, x :: s => okWild fl x && refMatch fl ts s
   | .cls _ _ :: _, [] => false
   | .cls n it :: ts, x :: s => okWild fl x && classHas fl n it x && refMatch fl ts s
-  | .star :: ts, s => starMatch (refMatch fl ts) (okWild fl) s
+  | .star _ :: ts, s => starMatch (refMatch fl ts) (okWild fl) s
 
 /-- the reference `fnmatch` on decoded strings: 0 / 1 -/
 def refFnmatch (fl : FnFlags) (pat str : List Nat) : Nat :=
